@@ -314,6 +314,35 @@ func extractC12() *lean {
 		nestedFirst = inside && !early
 	}
 	l.def("resolveEvaluatesPathNestedBeforeReturningCredential", "Bool", fmt.Sprint(nestedFirst), nestedFirst)
+	// ---- util.go parseJSONArrayEnvelope: the cases of the entry type switch, and whether the loop can skip an entry
+	_, utf := parseFile("vcr/pe/util.go")
+	var swCases []string
+	hasContinue := false
+	if fd := funcDecl(utf, "parseJSONArrayEnvelope"); fd != nil {
+		ast.Inspect(fd, func(n ast.Node) bool {
+			switch x := n.(type) {
+			case *ast.TypeSwitchStmt:
+				for _, c := range x.Body.List {
+					cc := c.(*ast.CaseClause)
+					if cc.List == nil {
+						swCases = append(swCases, "default")
+					}
+					for _, e := range cc.List {
+						swCases = append(swCases, exprString(e))
+					}
+				}
+			case *ast.BranchStmt:
+				if x.Tok == token.CONTINUE {
+					hasContinue = true
+				}
+			}
+			return true
+		})
+	} else {
+		swCases = []string{"FUNCTION_NOT_FOUND"}
+	}
+	l.def("arrayEnvelopeSwitchCases", "List String", leanStrList(swCases), swCases)
+	l.def("arrayEnvelopeLoopHasContinue", "Bool", fmt.Sprint(hasContinue), hasContinue)
 	l.def("resolveRejectsDuplicateIds", "Bool", dupCheck, dupCheck)
 	// ---- apply: the "take max" loop (the range loop whose body mentions *submissionRequirement.Max): is the
 	// `index == *Max` test the first statement of the body (before a member is taken) or the last (after)?
